@@ -62,7 +62,12 @@ def get_build(kind="plain", log=print):
         olds = sorted((e for e in os.listdir(CACHE) if e.startswith("build-%s-" % kind)),
                       key=lambda e: os.path.getmtime(os.path.join(CACHE, e, ".ok"))
                       if os.path.exists(os.path.join(CACHE, e, ".ok")) else 0)
+        # never drop a build that was used within the last 45 minutes: a check running right now may be using it
+        now = time.time()
         for e in olds[:-3]:
+            ok = os.path.join(CACHE, e, ".ok")
+            if os.path.exists(ok) and now - os.path.getmtime(ok) < 2700:
+                continue
             shutil.rmtree(os.path.join(CACHE, e), ignore_errors=True)
         os.makedirs(d)
         t0 = time.time()
